@@ -1,6 +1,6 @@
 """Observation workers: drive the real library on one case and return what was observed
 (digests only; the replay file keeps the inputs so everything can be recomputed)."""
-import copy, pickle, re
+import copy, os, pickle, re
 from . import common, lexer
 from . import fp
 from .fp import Base, BlockBase, StmtBase, walk
@@ -115,6 +115,16 @@ def do_copy(tree, how):
     try:
         if how == "deepcopy":
             t2 = copy.deepcopy(tree)
+        elif how == "pickle-fresh":
+            # written here, loaded later by a process that never created a parser (mbt/xload.py)
+            import tempfile
+            d = os.path.join(common.WORK, "tmp")
+            os.makedirs(d, exist_ok=True)
+            fd, path = tempfile.mkstemp(suffix=".pickle", dir=d)
+            with os.fdopen(fd, "wb") as f:
+                pickle.dump(tree, f)
+            r.update(pending=path, disjoint=True, indep=True)
+            return r
         else:
             t2 = pickle.loads(pickle.dumps(tree))
         r["st"] = h(fp.struct(t2))
@@ -170,7 +180,7 @@ def observe(case):
                 run["tables"] = fp.tables()
                 run["scope"] = fp.scope()
             if "copy" in want:
-                run["copies"] = [do_copy(t, "deepcopy"), do_copy(t, "pickle")]
+                run["copies"] = [do_copy(t, "deepcopy"), do_copy(t, "pickle"), do_copy(t, "pickle-fresh")]
             if "reparse" in want:
                 o2, t2 = fp.parse(fp.create(std), s1, ignore_comments=ic, process_directives=pd)
                 rr = {"o": o2}
